@@ -4,11 +4,30 @@
   Model  : Model/Gff.lean  (mirror of io/gff3/rows.py, gene/*.py to_gff, collections.py; escape tables = the
            GENERATED `Gen.gffEncodingMap` / `Gen.gffEncodingMapWithComma`, so a changed table entry breaks T1)
   Spec   : Spec/Gff.lean   (percent decoding, line syntax, reference decoder — written from the GFF3 text)
-  Helper lemmas: Proofs/GffEscape.lean, Proofs/GffRows.lean (never here).
+  Helper lemmas: Proofs/GffEscape.lean (tables), GffRows.lean (rows, sort), GffAttrs.lean (column nine),
+                 GffIds.lean (ID scheme, distinct IDs), GffLine.lean (line syntax), GffDecode.lean (grouping by
+                 Parent in the sorted output) — never here.
+
+  Scope of the theorems (all quantifiers unbounded):
+    * strings are arbitrary `List Char`; ASCII lower-casing models `str.lower()` (non-ASCII cased letters in KEYS
+      are outside the model);
+    * collections are arbitrary `SColl` values satisfying the decidable `collWF off` (ascending non-empty
+      non-overlapping blocks incl. 0-bp gaps, CDS blocks not before the first exon, one non-NONE frame per CDS
+      block, every block at or after the chunk offset `off`; `off = 0` in chromosome mode);
+    * T4 needs UUID-shaped GUIDs; T1-column / T5-line need non-empty qualifier keys and a sequence name without
+      tab / LF / CR (column 1 is not escaped by the writer).
 -/
 import BioCantor.Proofs.GffEscape
+import BioCantor.Proofs.GffRows
+import BioCantor.Proofs.GffAttrs
+import BioCantor.Proofs.GffIds
+import BioCantor.Proofs.GffLine
+import BioCantor.Proofs.GffDecode
 namespace BioCantor.Props.C11
-open BioCantor BioCantor.Spec.Gff BioCantor.Model.Gff BioCantor.Proofs.GffEscape
+open BioCantor BioCantor.Model.Gff BioCantor.Proofs.GffEscape BioCantor.Proofs.GffRows BioCantor.Proofs.GffAttrs
+open BioCantor.Proofs.GffIds BioCantor.Proofs.GffLine BioCantor.Proofs.GffDecode
+open BioCantor.Spec.Gff (Str Quals SCds STx SGene SFeat SFc SChild SPar SColl percentDecode percentsOk wellEscaped
+  structural structuralValue splitOnChar parseAttrs parseLine uuidShaped)
 
 /-! ## T1 — escaping decodes back, for EVERY string, in both comma modes -/
 
@@ -66,5 +85,151 @@ theorem T1_escapeKey_wellEscaped (k : Str) (lower : Bool) :
   · simp only [Bool.false_eq_true, if_false]; exact wellEscaped_escapeWith gffEncodingMap_good k
   · simp only [if_true]
     exact wellEscaped_lower_escapeWith gffEncodingMap_good structural_lower_closed k
+
+/-! ## T1 (column nine) — splitting the rendered attribute column on `;`, `=`, `,` is unambiguous -/
+
+/-- T1f: for EVERY id / parent / name and every qualifier dictionary with non-empty keys, the column written by
+    `GFFAttributes.__str__` is read back by the Spec's reader (`split ';'`, `split '='`, `split ','`,
+    `percentDecode`) as exactly the writer's (tag, values) pairs: ID, Parent?, Name?, then the qualifier pairs. -/
+theorem T1_column_parses (a : Attrs) (s : Str) (h : attrsStr a = .ok s) (hkeys : ∀ kv ∈ a.quals, kv.1 ≠ []) :
+    ∃ tail, qualPairs a.raiseOnReserved (sortQuals a.quals) = .ok tail ∧
+      parseAttrs s = some ((headPairs a ++ tail).map decodePair) :=
+  attrsStr_parses a s h hkeys
+
+/-- the hypotheses are met, e.g. by an adversarial key and values (one empty, one with `=` and `,`) -/
+example : (∃ s, attrsStr ⟨['g', '1'], none, some ['A', ' ', 'b'], [(['k', ';'], [['v', '=', ','], []])], false⟩ = .ok s) ∧
+    (∀ kv ∈ [((['k', ';'] : Str), ([['v', '=', ','], []] : List Str))], kv.1 ≠ []) :=
+  ⟨attrsStr_noraise _ rfl, by decide⟩
+
+/-- T3c: reserved attributes never come from qualifiers: the decoded tag of every pair emitted by the qualifier
+    loop differs from `ID`, `Parent` and `Name` (a qualifier so named is refused or dropped; every other key is
+    lower-cased unless it is one of the seven GFF3-reserved spellings). -/
+theorem T3_reserved_never_from_qualifiers (raise : Bool) (q : Quals) (l : List (Str × Str))
+    (h : qualPairs raise q = .ok l) :
+    ∀ p ∈ l, percentDecode p.1 ≠ kID ∧ percentDecode p.1 ≠ kParent ∧ percentDecode p.1 ≠ kName :=
+  qualPairs_tags raise q l h
+
+/-! ## T2 — every emitted row -/
+
+/-- T2a (text): a rendered row has exactly nine tab-separated columns — its own — and no LF / CR, provided the
+    sequence name has none of tab / LF / CR. -/
+theorem T2_nine_columns (r : Row) (line : Str) (h : rowStr r = .ok line) (hseq : noSep r.seqid) :
+    ∃ a, attrsStr r.attrs = .ok a ∧ noLine line ∧
+      splitOnChar '\t' line = [r.seqid, gffSource, r.type.value, natStr r.start, natStr r.stop, nullColumn,
+                                strandSymbol r.strand, phaseToGff r.phase, a] :=
+  rowStr_nine_columns r line h hseq
+
+/-- T2b (coordinates): every row of the sorted output is the image `(start − off + 1, end − off)` of a source
+    interval — a gene / transcript / feature span or an exon / CDS / feature block (`RowOrigin`), with the source's
+    strand (`+` for gene and feature-collection rows); `1 ≤ start ≤ end`; the phase column is `.` exactly on non-CDS
+    rows, and on a CDS row it is `to_phase` of the frame the export pairs with that block. -/
+theorem T2_rows (cx : Ctx) (c : SColl) (hwf : collWF cx.off c = true) :
+    ∀ r ∈ sortedRows cx c, RowOrigin cx c r ∧ 1 ≤ r.start ∧ r.start ≤ r.stop ∧ (r.phase = .NONE ↔ r.type ≠ .cds) :=
+  fun _ hr => ⟨sortedRows_origin hr, sortedRows_facts hwf hr⟩
+
+/-- the phase of the model is the generated `CDSFrame.to_phase`, the strand symbol the generated
+    `Strand.to_symbol`, the chunk-relative frames use the generated `CDSFrame.shift` -/
+theorem T2_kernel_ties (f : CDSFrame) (s : Strand) (n : Int) :
+    Gen.CDSFrame_to_phase f = .ok (toPhase f) ∧ Gen.Strand_to_symbol s = .ok (strandSymbol s) ∧
+    Gen.CDSFrame_shift f n = .ok (shiftFrame f n) ∧ Spec.Gff.phaseOfFrame f = phaseNat (toPhase f) :=
+  ⟨toPhase_tie f, strandSymbol_tie s, shiftFrame_tie f n, by cases f <;> rfl⟩
+
+/-! ## T3 — order and Parent resolution in the sorted output -/
+
+/-- T3a: rows are ordered by start. -/
+theorem T3_sorted (cx : Ctx) (c : SColl) : (sortedRows cx c).Pairwise (fun a b => a.start ≤ b.start) :=
+  sortedRows_sorted cx c
+
+/-- T3b: every `Parent` is the `ID` of a row that comes EARLIER in the sorted output (stability of the sort and
+    parent.start ≤ child.start). -/
+theorem T3_parent_earlier (cx : Ctx) (c : SColl) (hwf : collWF cx.off c = true) :
+    ∀ r ∈ sortedRows cx c, ∀ p, r.attrs.parent = some p →
+      ∃ q, [q, r].Sublist (sortedRows cx c) ∧ q.attrs.id = p :=
+  sortedRows_parent hwf
+
+/-! ## T4 — IDs -/
+
+/-- T4a: the naming scheme `<guid>` / `exon-<guid>-<i>` / `<guid>-<i>` / `feature-<guid>-<i>` is injective for
+    UUID-shaped GUIDs: two IDs are equal only if form, GUID and index agree. -/
+theorem T4_id_scheme_injective {f f' : IdForm} {g g' : Str} {i j : Nat}
+    (hg : uuidShaped g = true) (hg' : uuidShaped g' = true) (e : idOf f g i = idOf f' g' j) :
+    f = f' ∧ g = g' ∧ (f ≠ .plain → i = j) :=
+  idOf_injective hg hg' e
+
+/-- T4b: the IDs of the exported rows are pairwise distinct PROVIDED the GUIDs of the collection's genes,
+    transcripts, CDSs, feature collections and features are pairwise distinct (and UUID-shaped).  The library
+    enforces distinct GUIDs per parent only; F-C11c is an input on which the hypothesis fails. -/
+theorem T4_ids_distinct (cx : Ctx) (c : SColl) (hnd : (Spec.Gff.allGuids c).Nodup)
+    (hu : ∀ g ∈ Spec.Gff.allGuids c, uuidShaped g = true) : ((sortedRows cx c).map (·.attrs.id)).Nodup :=
+  sortedRows_ids_nodup cx c hnd hu
+
+/-! ## T5 — decoding -/
+
+/-- T5_structure_partial: reading the SORTED output back by Parent — the rows of type exon whose Parent is a
+    transcript's ID, in file order and shifted back by the chunk offset, are exactly that transcript's exon blocks;
+    the CDS rows naming it are exactly its CDS blocks, each with `to_phase` of the frame the export pairs with it
+    (= the stored frame in chromosome mode).  For every well-formed collection with pairwise distinct UUID-shaped
+    GUIDs, every gene, every transcript, both coordinate modes.
+
+    Full statement (kept): `gffDecode off ((toGffLines c …).map parseLine) = expected c`, i.e. additionally
+    (i) the transcripts of each gene and the genes themselves grouped the same way (same argument one level up),
+    (ii) the decoded attribute multimaps of every row equal the declarative union `expectAttrs (txQuals g t)` of
+    Spec/Gff.lean (needs: the model's imperative `mergeQuals`/`addToSet` = that union), (iii) composition with the
+    per-line theorem below.  (i)–(iii) rest on the correspondence run, where `Spec.Gff.checkLines` evaluates exactly
+    this equation on the real writer's output. -/
+theorem T5_structure_partial (cx : Ctx) (c : SColl) (hwf : collWF cx.off c = true)
+    (hnd : (Spec.Gff.allGuids c).Nodup) (hu : ∀ g ∈ Spec.Gff.allGuids c, uuidShaped g = true)
+    (g : SGene) (t : STx) (hg : SChild.gene g ∈ c.children) (ht : t ∈ g.txs) :
+    ((sortedRows cx c).filter (isChildOf .exon t.guid)).map (rowBlk cx.off) = t.exons ∧
+    ∀ k, t.cds = some k →
+      ((sortedRows cx c).filter (isChildOf .cds t.guid)).map (fun r => (rowBlk cx.off r, r.phase)) =
+        (k.blocks.zip (exportFrames cx t k)).map (fun bf => (bf.1, toPhase bf.2)) := by
+  have h := tx_children_in_sorted hwf hnd hu hg ht
+  have htw := geneWF_tx (collWF_gene hwf hg) ht
+  refine ⟨?_, ?_⟩
+  · rw [h.1]; exact exonRowsOf_blocks _ htw
+  · intro k hk
+    rw [h.2]; exact cdsRowsOf_blocks _ hk htw
+
+/-- T5_line_partial: the Spec's line reader applied to a rendered row returns that row's nine columns — seqid,
+    source, type, the SAME start and end numbers, strand, phase — and the decoded (tag, values) pairs of its
+    attribute column.
+
+    Full statement (kept; the structure-level step rests on the correspondence run, where `Spec.Gff.checkLines`
+    evaluates exactly this equation on the real writer's output for every generated collection):
+      `gffDecode off ((toGffLines c …).map parseLine) = expected c`   ( = normalise (structure c) ); see
+    T5_structure_partial for what is missing. -/
+theorem T5_line_roundtrip_partial (r : Row) (line : Str) (h : rowStr r = .ok line)
+    (hseq : noSep r.seqid) (hne : r.seqid ≠ []) (h1 : 1 ≤ r.start) (h2 : r.start ≤ r.stop)
+    (hkeys : ∀ kv ∈ r.attrs.quals, kv.1 ≠ []) :
+    ∃ tail, qualPairs r.attrs.raiseOnReserved (sortQuals r.attrs.quals) = .ok tail ∧
+      parseLine line = some ⟨r.seqid, gffSource, r.type.value, r.start, r.stop, nullColumn, r.strand,
+                             phaseNat r.phase, (headPairs r.attrs ++ tail).map decodePair⟩ :=
+  parseLine_rowStr r line h hseq hne h1 h2 hkeys
+
+/-! ### non-vacuity of the hypotheses: a two-isoform minus-strand gene with a 0-bp-gap CDS in a chunk at 10 -/
+
+def exTx1 : STx :=
+  { guid := "00000000-0000-0000-0000-000000000002".toList, strand := .minus, exons := [(12, 20), (20, 31), (40, 45)],
+    cds := some ⟨"00000000-0000-0000-0000-000000000003".toList, [(15, 20), (20, 31), (40, 42)], [.ONE, .ZERO, .ZERO]⟩,
+    tid := some ['t', '1'], sym := none, ttype := some ['m', 'R', 'N', 'A'], pid := some ['p'], product := none,
+    quals := [(['k', ' '], [['v', ';']])] }
+def exTx2 : STx :=
+  { guid := "00000000-0000-0000-0000-000000000004".toList, strand := .minus, exons := [(14, 18)], cds := none,
+    tid := none, sym := none, ttype := none, pid := none, product := none, quals := [] }
+def exColl : SColl :=
+  { seqName := some ['c', 'h', 'r'], par := .chunk 10 90,
+    children := [.gene { guid := "00000000-0000-0000-0000-000000000001".toList, gid := some ['g'], sym := some ['G'],
+                         gtype := none, locus := none, quals := [], txs := [exTx1, exTx2] }] }
+
+example : collWF 10 exColl = true := by decide
+example : uuidShaped exTx1.guid = true := by decide
+example : (Spec.Gff.allGuids exColl).Nodup ∧ ∀ g ∈ Spec.Gff.allGuids exColl, uuidShaped g = true := by decide
+/-- a row of that collection meeting the hypotheses of T2a / T5-line -/
+def exRow : Row :=
+  ⟨['c', 'h', 'r'], .cds, 6, 10, .minus, .TWO, ⟨exTx1.guid ++ ['-', '1'], some exTx1.guid, some ['p'], exTx1.quals, false⟩⟩
+example : (∃ line, rowStr exRow = .ok line) ∧ noSep exRow.seqid ∧ exRow.seqid ≠ [] ∧ 1 ≤ exRow.start ∧
+    exRow.start ≤ exRow.stop ∧ (∀ kv ∈ exRow.attrs.quals, kv.1 ≠ []) :=
+  ⟨rowStr_noraise _ rfl, by decide, by decide, by decide, by decide, by decide⟩
 
 end BioCantor.Props.C11
